@@ -52,3 +52,9 @@ def c10_attempts(valid, unit, sends, clean):
     ch = [int(x) for x in valid.tags["CH"].split(",")]
     kind_sends = sum(1 for (_, _, data, _) in sends if data[8:10] == "54")
     return kind_sends - (ch[unit] if clean else 0)
+
+
+# ---- C08: the split-packet reassembly is the Valve protocol's; a failed section surfaces as the conversion's error
+# (players and rules are required), so permutations / duplications can be judged on this entry as they are
+
+from props.families.valve import fragment_groups  # noqa: E402,F401
